@@ -646,3 +646,118 @@ Proof.
     exists s1, i1. cbn [nonempty]. rewrite app_nil_r.
     repeat split; try assumption; try congruence; try discriminate.
 Qed.
+
+(* ------------------------------------------------------------------------- *)
+(* 5. Fraction, finish, and the acceptance theorem (T1)                       *)
+(* ------------------------------------------------------------------------- *)
+
+Lemma step'_dot : forall s i,
+  sc s = None -> (comma_pos s = None \/ comma_pos s = Some i) ->
+  step' s i 46 = Cont (dot_st s).
+Proof.
+  intros s i Hs Hc. unfold step'.
+  change (46 =? 45) with false. change (46 =? 44) with false. change (46 =? 46) with true.
+  rewrite andb_false_r. cbn [andb]. rewrite Hs. cbn [is_none andb].
+  destruct Hc as [Hc|Hc]; rewrite Hc; cbn [is_none oeqb orb].
+  - reflexivity.
+  - rewrite N.eqb_refl. reflexivity.
+Qed.
+
+Lemma frac_phase : forall s2 i2 fp r4 pre,
+  sc s2 = None -> (comma_pos s2 = None \/ comma_pos s2 = Some i2) -> Forall dig fp ->
+  mantissa s2 = Z.of_N (digits_val pre) ->
+  exists s3,
+    run' s2 i2 (46 :: fp ++ r4) = run' s3 (i2 + 1 + N.of_nat (length fp)) r4 /\
+    comma_pos s3 = None /\ sc s3 = Some (length fp) /\ format s3 = format s2 /\
+    mantissa s3 = Z.of_N (digits_val (pre ++ fp)) /\
+    prefix_len s3 = prefix_len s2 /\ sign s3 = sign s2 /\
+    has_digit s3 = has_digit s2 || nonempty fp.
+Proof.
+  intros s2 i2 fp r4 pre Hs Hc Hd Hm.
+  exists (after (dot_st s2) (i2 + 1) fp).
+  split.
+  { cbn [run']. rewrite (step'_dot _ _ Hs Hc). apply run'_digits; [exact Hd|].
+    intros q Hq. discriminate. }
+  split; [rewrite after_comma_pos; reflexivity|].
+  split; [rewrite (after_sc_some _ _ _ 0%nat); reflexivity|].
+  split; [rewrite after_format_keep; [reflexivity|left; discriminate]|].
+  split; [apply after_mantissa; exact Hm|].
+  split; [rewrite after_prefix_len; reflexivity|].
+  split; [rewrite after_sign; reflexivity|].
+  rewrite after_has_digit. reflexivity.
+Qed.
+
+Lemma finish_ok : forall len s (ng : bool) M k,
+  group_incomplete len s = false -> has_digit s = true ->
+  sign s = (if ng then (-1)%Z else 1%Z) -> mantissa s = Z.of_N M ->
+  match sc s with Some n => n | None => 0%nat end = k ->
+  (if (i128_max <? mantissa s)%Z then SErr InvalidDecimal else finish len s) =
+  if (Z.of_N M <=? max96)%Z && (k <=? 28)%nat
+  then SOk {| neg := ng && negb (M =? 0); mant := M; scale := k; pfmt := format s |}
+  else SErr InvalidDecimal.
+Proof.
+  intros len s ng M k Hg Hh Hsg Hm Hk.
+  unfold finish. rewrite Hg, Hh. cbn [negb]. cbv zeta. rewrite Hk, Hsg, Hm.
+  assert (Habs : Z.abs ((if ng then (-1)%Z else 1%Z) * Z.of_N M) = Z.of_N M) by (destruct ng; lia).
+  rewrite Habs.
+  assert (Hmax : (max96 < i128_max)%Z) by (unfold max96, i128_max; lia).
+  destruct ((Z.of_N M <=? max96)%Z && (k <=? 28)%nat) eqn:EF.
+  - assert (E1 : (i128_max <? Z.of_N M)%Z = false) by lia.
+    assert (E2 : (28 <? k)%nat = false) by lia.
+    assert (E3 : (max96 <? Z.of_N M)%Z = false) by lia.
+    rewrite E1, E2, E3. f_equal. f_equal.
+    + destruct ng; lia.
+    + destruct ng; lia.
+  - destruct (i128_max <? Z.of_N M)%Z eqn:E1; [reflexivity|].
+    destruct (28 <? k)%nat eqn:E2; [reflexivity|].
+    destruct (max96 <? Z.of_N M)%Z eqn:E3; [reflexivity|]. lia.
+Qed.
+
+Theorem wf_accepted : forall l t,
+  spec_scan l = Some t ->
+  scan l = if fits t then SOk (pdec_of t) else SErr InvalidDecimal.
+Proof.
+  intros l t H. rewrite spec_scan_eq in H.
+  destruct (strip l) as [ng body] eqn:Hstrip.
+  destruct (span_digits body) as [g0 r1] eqn:Hspan.
+  fold (grp_ok g0) in H.
+  destruct (if grp_ok g0 then groups r1 else ([], r1)) as [gs r2] eqn:Hgrp.
+  destruct (int_phase _ _ _ _ _ _ _ Hstrip Hspan Hgrp)
+    as (s2 & i2 & Hrun & Hlen & Hcp & Hfm & Hmt & Hsc & Hpl & Hsg & Hhd & Hnil & Hcons & Hstop).
+  assert (Hfmt : format s2 =
+                 if nonempty gs then Some Comma3Dot
+                 else if (4 <=? length (g0 ++ gs))%nat then Some Plain else None).
+  { rewrite Hfm. destruct gs; [rewrite app_nil_r|]; reflexivity. }
+  unfold tail in H. destruct r2 as [|x r3].
+  - destruct (nonempty (g0 ++ gs)) eqn:Ene; [|discriminate]. inversion H; subst t. clear H.
+    cbn [run'] in Hrun. rewrite (scan_cont _ _ Hrun).
+    rewrite (finish_ok _ _ ng (digits_val (g0 ++ gs)) 0%nat).
+    + unfold pdec_of, fits, lit_mant, lit_places.
+      cbn [l_neg l_int l_frac l_grouped length]. rewrite app_nil_r, Hfmt. reflexivity.
+    + unfold group_incomplete. rewrite Hcp. destruct (nonempty gs); [|reflexivity].
+      cbn [length] in Hlen. lia.
+    + congruence.
+    + exact Hsg.
+    + exact Hmt.
+    + rewrite Hsc. reflexivity.
+  - destruct (x =? 46) eqn:Ex; [|discriminate]. apply N.eqb_eq in Ex. subst x.
+    destruct (span_digits r3) as [fp r4] eqn:Hsp2.
+    destruct r4 as [|y r5]; [|discriminate].
+    destruct (nonempty ((g0 ++ gs) ++ fp)) eqn:Ene; [|discriminate].
+    inversion H; subst t. clear H.
+    destruct (span_digits_spec _ _ _ Hsp2) as (Hr3 & Hdfp & _).
+    assert (Hc : comma_pos s2 = None \/ comma_pos s2 = Some i2).
+    { rewrite Hcp. destruct (nonempty gs); auto. }
+    destruct (frac_phase s2 i2 fp [] (g0 ++ gs) Hsc Hc Hdfp Hmt)
+      as (s3 & Hrun3 & Hcp3 & Hsc3 & Hfm3 & Hmt3 & Hpl3 & Hsg3 & Hhd3).
+    rewrite Hr3 in Hrun. rewrite Hrun3 in Hrun. cbn [run'] in Hrun.
+    rewrite (scan_cont _ _ Hrun).
+    rewrite (finish_ok _ _ ng (digits_val ((g0 ++ gs) ++ fp)) (length fp)).
+    + unfold pdec_of, fits, lit_mant, lit_places.
+      cbn [l_neg l_int l_frac l_grouped]. rewrite Hfm3, Hfmt. reflexivity.
+    + unfold group_incomplete. rewrite Hcp3. reflexivity.
+    + rewrite Hhd3, Hhd. destruct (g0 ++ gs); [exact Ene|reflexivity].
+    + congruence.
+    + exact Hmt3.
+    + rewrite Hsc3. reflexivity.
+Qed.
